@@ -341,6 +341,20 @@ m("badnode-sql-index-loop-off-by-one", ["C04"], "break", "ast/sql.go",
   "	for _, tok := range b.Tokens {\n		if sql != \"\" && (len(tok.Space) > 0 || len(tok.Comments) > 0) {",
   "	for i := 0; i <= len(b.Tokens)-1; i++ {\n		tok := b.Tokens[i+1]\n		if sql != \"\" && (len(tok.Space) > 0 || len(tok.Comments) > 0) {", "expected suite-FAIL? Bad nodes are printed by the suite")
 
+# ---- rules of the keep round / round 5 -------------------------------------------------------------
+m("preorder-yield-not-latched", ["C17"], "break", "ast/walk.go",
+  "			ok = ok && yield(n)\n			return ok\n		})\n	}\n}\n\n// PreorderMany",
+  "			ok = yield(n)\n			return ok\n		})\n	}\n}\n\n// PreorderMany", "yield is called again after it returned false (range-over-func panics)")
+m("param-name-starts-with-digit", ["C14"], "break", "lexer.go",
+  "		if l.peekOk(1) && char.IsIdentStart(l.peek(1)) {\n			i := 1",
+  "		if l.peekOk(1) && char.IsIdentPart(l.peek(1)) {\n			i := 1", "@1 lexes as a parameter")
+m("quoteident-on-any-token", ["C03"], "break", "parser.go",
+  "		panic(p.errorfAtToken(&p.Token, \"unknown constraint %s\", p.Token.AsString))",
+  "		panic(p.errorfAtToken(&p.Token, \"unknown constraint %s\", token.QuoteSQLIdent(p.Token.AsString)))", "index out of range on a keyword or <eof>")
+m("walk-depth-limit", ["C17"], "break", "ast/walk.go",
+  "		last := stack[len(stack)-1]\n		stack = stack[:len(stack)-1]\n",
+  "		last := stack[len(stack)-1]\n		stack = stack[:len(stack)-1]\n		if len(stack) > 100000 {\n			continue\n		}\n", "a size limit drops subtrees")
+
 def sh(cmd, cwd=None):
     return subprocess.run(cmd, shell=True, cwd=cwd, capture_output=True, text=True)
 
